@@ -69,6 +69,7 @@ def check(rep: Report, ctx: Ctx) -> None:
     r122(rep, ctx)
     r124(rep, ctx)
     r125(rep, ctx)
+    r126(rep, ctx)
 
 
 def r18(rep: Report, ctx: Ctx) -> None:
@@ -952,3 +953,10 @@ def r125(rep: Report, ctx: Ctx) -> None:
     main_walk_loop(rep, ctx, "R1.25")
     from .c05 import merge_point
     merge_point(rep, ctx, "R1.25")
+
+
+def r126(rep: Report, ctx: Ctx) -> None:
+    from .util import crossed_handoffs
+    rep.rule("R1.26", "positional hand-offs between the functions of the "
+             "pv -> puml pipeline do not cross two parameters", 1)
+    crossed_handoffs(rep, ctx, "R1.26", ("tel2puml/",), 250)
